@@ -212,6 +212,9 @@ func cmdCheck(args []string) int {
 			}
 			seen := map[string]bool{}
 			for _, v := range j.viol {
+				if !labelBelongs(spec.Labels, v.Label) {
+					continue
+				}
 				key := j.entry + "/" + v.Label
 				if seen[key] {
 					continue
@@ -249,7 +252,7 @@ func cmdCheck(args []string) int {
 	}
 	// ---- candidates ----
 	for i, c := range cands {
-		if spec.Replay == "none" {
+		if spec.Replay == "none" || c.j.cfg.NoReplay {
 			continue
 		}
 		rid := fmt.Sprintf("cand-%d", i)
@@ -273,7 +276,7 @@ func cmdCheck(args []string) int {
 				if n >= 6 {
 					break
 				}
-				if len(j.viol) > 0 || len(j.inconcl) > 0 {
+				if len(j.viol) > 0 || len(j.inconcl) > 0 || j.cfg.NoReplay {
 					continue
 				}
 				if rng.Intn(len(gr.jobs)) > 6 && n > 0 {
@@ -364,7 +367,7 @@ func cmdCheck(args []string) int {
 		wit := map[string]interface{}{"property": id, "harness": c.j.entry, "params": c.j.cfg.Params, "label": c.v.Label, "kind": c.v.Kind, "detail": c.v.Detail,
 			"pos": c.v.Pos, "pkg": c.gr.spec.Pkg, "harness_files": c.gr.spec.Harness, "witness": nativeWitness(c.j.cfg.Params, c.v.Nondets, c.v.Model, false), "decisions": c.v.Trace, "schedule": c.v.Sched, "events": c.v.Events}
 		status := "symbolic-only"
-		if spec.Replay != "none" {
+		if spec.Replay != "none" && !c.j.cfg.NoReplay {
 			replayed++
 			r, ok := results[rid]
 			switch {
@@ -611,7 +614,7 @@ func nativeReplay(repo, root string, gr *groupRun, items []replayItem) (map[stri
 		pat = "."
 	}
 	sortedItems(items)
-	cmd := exec.Command("go", "test", "-vet=off", "-count=1", "-timeout", "300s", "-overlay", of, "-run", "^TestVerifReplay$", "-v", pat)
+	cmd := exec.Command("go", "test", "-vet=off", "-count=1", "-timeout", "90s", "-overlay", of, "-run", "^TestVerifReplay$", "-v", pat)
 	cmd.Dir = repo
 	cmd.Env = append(os.Environ(), "GOFLAGS=-mod=mod", "GOPROXY=off", "GOSUMDB=off", "GOTOOLCHAIN=local", "VERIF_BATCH="+bf)
 	out, err := cmd.CombinedOutput()
@@ -689,4 +692,16 @@ func encodedFunctions(groups []*groupRun) []string {
 		r = append(r[:120], fmt.Sprintf("... and %d more", len(r)-120))
 	}
 	return r
+}
+
+func labelBelongs(prefixes []string, label string) bool {
+	if len(prefixes) == 0 {
+		return true
+	}
+	for _, p := range prefixes {
+		if strings.HasPrefix(label, p) {
+			return true
+		}
+	}
+	return false
 }
